@@ -47,7 +47,8 @@ def salt_for(fmt, rnd):
     h64 = "./0123456789ABCDEFGHIJKLMNOPQRSTUVWXYZabcdefghijklmnopqrstuvwxyz"
     if fmt in ("sha256c", "sha512c"):
         n = rnd.choice([1, 2, 8, 15, 16])
-        return "".join(rnd.choice(h64) for _ in range(n))
+        st = "".join(rnd.choice(h64) for _ in range(n))
+        return st if rnd.random() < .6 else st.encode()          # (the signature takes text or bytes)
     if fmt in ("pb256", "pb512"):
         n = rnd.choice([1, 2, 16, 31, 64])
         return bytes(rnd.randrange(256) for _ in range(n))
@@ -89,7 +90,7 @@ def replay_beh(chk, C, beh, rnd):
                 kw = {"rounds": h["rounds"]}
                 salt = salt_for(h["fmt"], rnd)
                 if salt is not None:
-                    kw["salt"] = salt
+                    kw["salt"] = salt.decode() if (isinstance(salt, bytes) and h["fmt"] in ("sha256c", "sha512c")) else salt      # (the classic sha-crypt hashers take text salts)
                 if h["fmt"] == "bcrypt":            # every variant letter a classic bcrypt hash may carry
                     kw["ident"] = rnd.choice(["2a", "2b", "2y"])
                 text = P.using(**kw).hash(pw(st["pw"], h["fmt"]))
